@@ -271,7 +271,7 @@ def m_part(run, scr, nat):
             continue
         if o.kind != "return":
             continue
-        after = o.env["_1"]
+        after = it.deref(o.env["_1"], o.env)
         kn = after.fields[str(gqf.index("known"))].items
         um = after.fields[str(gqf.index("unknown"))].entries
         nu = after.fields[str(gqf.index("no_unit"))]
@@ -355,7 +355,7 @@ def m_part(run, scr, nat):
                 continue
             if o.kind != "return":
                 continue
-            after = o.env["_1"]
+            after = it.deref(o.env["_1"], o.env)
             vec = after.fields["0"] if isinstance(after, Agg) else None
             if not isinstance(vec, VecVal):
                 run.inconclusive.append("GroupedValue::add %s: final state not tracked" % sname)
@@ -401,7 +401,7 @@ def m_part(run, scr, nat):
                     continue
                 if o.kind != "return":
                     continue
-                after = o.env["_1"]
+                after = it.deref(o.env["_1"], o.env)
                 vec = after.fields["0"] if isinstance(after, Agg) else None
                 if not isinstance(vec, VecVal):
                     run.inconclusive.append("GroupedValue::merge %s <- %s: final state not tracked" % (sname, oname))
